@@ -373,7 +373,7 @@ class LargestRemainder:
             sum(votes.values()), n_seats
         )
         gained_prerem = votelib.util.sum_dicts(quota_elected, prev_gains)
-        n_for_remainder = n_seats - sum(gained_prerem.values())
+        n_for_remainder = max(n_seats - sum(gained_prerem.values()), 0)
         remainders = {
             cand: Fraction(n_votes, quota_number) - gained_prerem.get(cand, 0)
             for cand, n_votes in votes.items()
